@@ -369,13 +369,14 @@ worker_start(void *thr_ptr)
 		// Wait for work.
 		mythread_sync(thr->mutex) {
 			while (true) {
-				// The thread is already idle so if we are
-				// requested to stop, just set the state.
-				if (thr->state == THR_STOP) {
-					thr->state = THR_IDLE;
-					mythread_cond_signal(&thr->cond);
-				}
-
+				// threads_stop() sets THR_STOP only for
+				// threads that aren't idle. If we see it
+				// here, the main thread had already given
+				// us a Block (THR_RUN or THR_FINISH) and
+				// thus taken us off the stack of free
+				// threads, but we hadn't noticed it yet.
+				// Then we must return ourselves to the stack
+				// like we would after worker_encode().
 				state = thr->state;
 				if (state != THR_IDLE)
 					break;
@@ -387,23 +388,12 @@ worker_start(void *thr_ptr)
 		size_t out_pos = 0;
 
 		assert(state != THR_IDLE);
-		assert(state != THR_STOP);
 
 		if (state <= THR_FINISH)
 			state = worker_encode(thr, &out_pos, state);
 
 		if (state == THR_EXIT)
 			break;
-
-		// Mark the thread as idle unless the main thread has
-		// told us to exit. Signal is needed for the case
-		// where the main thread is waiting for the threads to stop.
-		mythread_sync(thr->mutex) {
-			if (thr->state != THR_EXIT) {
-				thr->state = THR_IDLE;
-				mythread_cond_signal(&thr->cond);
-			}
-		}
 
 		mythread_sync(thr->coder->mutex) {
 			// If no errors occurred, make the encoded data
@@ -419,6 +409,25 @@ worker_start(void *thr_ptr)
 			thr->coder->progress_out += out_pos;
 			thr->progress_in = 0;
 			thr->progress_out = 0;
+
+			// Mark the thread as idle unless the main thread has
+			// told us to exit. Signal is needed for the case
+			// where the main thread is waiting for the threads
+			// to stop.
+			//
+			// This is done only now, while holding coder->mutex
+			// and after the above updates: once threads_stop()
+			// sees THR_IDLE, this thread won't touch thr->outbuf
+			// or the progress info anymore, and the main thread
+			// cannot take this thread from the stack of free
+			// threads (and set THR_RUN) before the state has
+			// been set to THR_IDLE.
+			mythread_sync(thr->mutex) {
+				if (thr->state != THR_EXIT) {
+					thr->state = THR_IDLE;
+					mythread_cond_signal(&thr->cond);
+				}
+			}
 
 			// Return this thread to the stack of free threads.
 			thr->next = thr->coder->threads_free;
@@ -447,8 +456,14 @@ threads_stop(lzma_stream_coder *coder, bool wait_for_threads)
 	// Tell the threads to stop.
 	for (uint32_t i = 0; i < coder->threads_initialized; ++i) {
 		mythread_sync(coder->threads[i].mutex) {
-			coder->threads[i].state = THR_STOP;
-			mythread_cond_signal(&coder->threads[i].cond);
+			// Idle threads are on the stack of free threads
+			// and have nothing to stop. THR_STOP must not be
+			// set for them: worker_start() takes it as a sign
+			// that the thread isn't on that stack.
+			if (coder->threads[i].state != THR_IDLE) {
+				coder->threads[i].state = THR_STOP;
+				mythread_cond_signal(&coder->threads[i].cond);
+			}
 		}
 	}
 
